@@ -17,7 +17,7 @@ From Coq Require Import NArith ZArith List Lia.
 Import ListNotations.
 From Mds Require Import Mdiff.Decimal Mdiff.ReaderModel Mdiff.FormatSpec Mdiff.ApplySpec Mdiff.FormatInst
   Mdiff.ReaderNormalProofs Mdiff.ApplyNormalProofs Mdiff.ReaderUnifiedProofs Mdiff.ApplyUnifiedProofs Mdiff.ApplyContextProofs Mdiff.ReaderGitProofs Mdiff.FormatPatchOk
-  Mdiff.FormatRefuted Mdiff.MdiffModel Mdiff.MdiffSpec Mdiff.MdiffHistModel Mdiff.FormatEndToEnd Mdiff.FormatEndToEndHist.
+  Mdiff.FormatRefuted Mdiff.FormatSkel Mdiff.MdiffModel Mdiff.MdiffSpec Mdiff.MdiffHistModel Mdiff.FormatEndToEnd Mdiff.FormatEndToEndHist.
 Local Open Scope Z_scope.
 
 (* every number the formatters print is read back by the model of strconv.Atoi *)
@@ -102,6 +102,26 @@ Proof. vm_compute. reflexivity. Qed.
 Theorem C14_code_is_pinned : gen_facts_pinned = true.
 Proof. exact code_is_pinned. Qed.
 Print Assumptions C14_code_is_pinned.
+
+(* the control skeleton the models transcribe by hand is the one of the source: for all 22
+   functions of format.go and reader.go the regenerated statement skeleton (one hex digit per
+   statement) equals the number the model was transcribed from; every switch has the labels, every
+   writeLines call the marker and side, every loop and guard of the readers the condition the
+   model has ([formatters_as_modelled], [readers_as_modelled] in Mdiff/FormatSkel.v); and with the
+   regenerated case labels and operators the body-line switch of read_uchunk_body and the command
+   switch of split_cmd compute exactly the transcription ([switches_as_transcribed]).  A guard
+   added inside a case, an early return, a reordered or dropped statement breaks this theorem. *)
+Theorem C14_skeleton_pinned :
+  skeleton_of_source = skeleton_of_model /\ formatters_as_modelled /\ readers_as_modelled /\ switches_as_transcribed.
+Proof. exact skeleton_pinned. Qed.
+Print Assumptions C14_skeleton_pinned.
+(* the body-line switch on a line "-- " (the deletion of a line whose text is "- ") and on "\ x" *)
+Example C14_skeleton_pinned_ex :
+  length skeleton_of_source = 22%nat /\
+  read_uchunk_body [[45; 45; 32]; [32; 120]; [92; 32; 120]]%N [] =
+    (BodyUnexpected, [mkEdit Drop [[45; 32]%N] []; mkEdit Emit [[120]%N] []], [[92; 32; 120]%N]) /\
+  split_cmd [49; 100; 48]%N = Some ([49]%N, CmdD, [48]%N).
+Proof. vm_compute. auto. Qed.
 
 (* FULL statement, under the repaired switches: for every chunk list (empty, one-line and
    empty-range hunks included) whose line numbers are at most 2^61 in magnitude ([ranges_fit]),
